@@ -1,5 +1,7 @@
 import TexcraftModel.Util.Proto
 import TexcraftModel.Model.C05
+import TexcraftModel.Model.C05Raw
+import TexcraftModel.Model.C05Text
 
 /-! Driver for C05 (lig/kern programs). All fields are integers; `-1` = none / boundary.
 
@@ -8,6 +10,9 @@ Program `P` = `rb lb nE (c e)* nK k* nI (next right kind x y)*`
 Word `W` = `n c*`.  Items `I` = `n item*`, item = `0 c` | `1 k` | `2 c lb rb n o*`.
 
 Requests:
+* `txt font P | n c*`, `txw font P | n c*` → the nodes of `addText` / `addWord` (Model/C05Text.lean):
+                        `0 c font` | `1 k` | `2 c font lb rb n o*` | `3` (discretionary) | `4` (glue)
+* `dec …`            → the program read from raw TFM lig/kern words (`decodeFont`), see `handleDec`
 * `tab P`            → `pair*` each `l r 0` (loops) or `l r 1 n op* c lig` (op = `0 k` | `1 c lig`),
                         pairs in candidate order, then `| S` spec verdict per pair (0 = terminates,
                         1 = never terminates within the state-space bound), then `| K` Knuth's
@@ -225,6 +230,83 @@ def knuthReport (p : Program) : List Pair :=
       if r.2.2.contains r.2.1 then r.2.1 :: go r.1 rest else go r.1 rest
   go n2c ordered
 
+/-! ### Raw TFM words -/
+
+def encPost : PostLig → Int
+  | .bothNowhere => 0 | .bothInserted => 1 | .bothRight => 2 | .rightInserted => 3
+  | .rightRight => 4 | .leftNowhere => 5 | .leftInserted => 6 | .neither => 7
+
+def encInstr (i : Instr) : List Int :=
+  [encOpt i.next, (i.right : Int)] ++ (match i.op with
+    | .kern k => [0, k, 0]
+    | .kernAt x => [1, (x : Int), 0]
+    | .lig c q => [2, (c : Int), encPost q]
+    | .redirect u => [3, (u : Int), 1])
+
+def encProg (p : Program) : List Int :=
+  [encOpt p.rb, encOpt p.lbEntry, (p.entries.length : Int)] ++ (p.entries.map (fun e => [(e.1 : Int), (e.2 : Int)])).flatten
+    ++ [(p.kerns.length : Int)] ++ p.kerns ++ [(p.instrs.length : Int)] ++ (p.instrs.map encInstr).flatten
+
+def wordsOf : List Int → List Word
+  | a :: b :: c :: d :: t => ⟨a.toNat, b.toNat, c.toNat, d.toNat⟩ :: wordsOf t
+  | _ => []
+
+/-- `dec nW (skip next op rem)* nT (c e)* nK k*` → the program `decodeFont` reads (in the `P` encoding),
+then `|` and, per (left, right) candidate pair of that program, whether `rule` of the decoded program
+equals `texRule` on the raw words (`1`/`0`; always `1` by `raw_rule` when the tags are distinct). -/
+def handleDec (c : Cur) : String :=
+  match c with
+  | nW :: t =>
+    match takeN (4 * nW.toNat) t with
+    | some (ws, t) =>
+      match t with
+      | nT :: t =>
+        match takeN (2 * nT.toNat) t with
+        | some (ts, t) =>
+          match takeList t with
+          | some (ks, []) =>
+            let f : RawFont := { words := wordsOf ws, kerns := ks, tags := pairsOf ts }
+            let p := decodeFont f
+            let agree := (dedup (candPairs p)).all (fun pr => rule p pr.1 pr.2 == texRule f pr.1 pr.2)
+            s!"{showInts (encProg p)} | {b2i agree}"
+          | _ => "bad-request"
+        | none => "bad-request"
+      | [] => "bad-request"
+    | none => "bad-request"
+  | [] => "bad-request"
+
+/-! ### The text preprocessor -/
+
+def encNode : HNode → List Int
+  | .ch c f => [0, (c : Int), (f : Int)]
+  | .kern k => [1, k]
+  | .lig c f o lb rb => [2, (c : Int), (f : Int), b2i lb, b2i rb, (o.length : Int)] ++ o.map Int.ofNat
+  | .disc => [3]
+  | .glue => [4]
+
+/-- `addWord` / `addWords` / `addText` of `Model/C05Text.lean` over the cached table. -/
+def addWordC (c : Cache) (font : Nat) (w : List Nat) : List HNode :=
+  (runCompiled c.tbl c.p.rb w).flatMap (nodesOf font)
+
+def addWordsC (c : Cache) (font : Nat) : Bool → List (List Nat) → List HNode
+  | _, [] => []
+  | pending, w :: rest => (if pending then [HNode.glue] else []) ++ addWordC c font w ++ addWordsC c font true rest
+
+def addTextC (c : Cache) (font : Nat) (t : List Nat) : List HNode :=
+  addWordsC c font (match t with | x :: _ => isWs x | [] => true) (splitWs t)
+
+/-- `txt font P | n c*` → nodes of `add_text`; `txw font P | n c*` → nodes of `add_word`. -/
+def handleTxt (word : Bool) (font : String) (ws : List String) : String :=
+  match font.toNat?, splitBar ws with
+  | some f, [pw, t] =>
+    match ints? pw >>= decProg, ints? t >>= takeList with
+    | some (p, []), some (txt, []) =>
+      let c := mkCache p
+      let nodes := if word then addWordC c f (txt.map Int.toNat) else addTextC c f (txt.map Int.toNat)
+      showInts (nodes.map encNode).flatten
+    | _, _ => "bad-request"
+  | _, _ => "bad-request"
+
 /-! ### Requests -/
 
 def handleTab (p : Program) : String :=
@@ -314,6 +396,12 @@ def handle (line : String) : String :=
     match ints? ws >>= decProg with
     | some (p, []) => handleTab p
     | _ => "bad-request"
+  | "dec" :: ws =>
+    match ints? ws with
+    | some c => handleDec c
+    | none => "bad-request"
+  | "txt" :: font :: ws => handleTxt false font ws
+  | "txw" :: font :: ws => handleTxt true font ws
   | "run" :: ws => handleRun true none ws
   | "runn" :: ws => handleRun false none ws
   | "runs" :: ws => handleRunsReq true none ws
